@@ -306,7 +306,7 @@ func (dr *dirRepo) BlobGet(d digest.Digest) (io.ReadSeekCloser, error) {
 }
 
 func (dr *dirRepo) blobGet(d digest.Digest, locked bool) (io.ReadSeekCloser, error) {
-	if !dr.exists {
+	if !dr.repoExists(locked) {
 		return nil, fmt.Errorf("repo does not exist %s: %w", dr.name, types.ErrNotFound)
 	}
 	if err := d.Validate(); err != nil {
@@ -325,7 +325,7 @@ func (dr *dirRepo) blobGet(d digest.Digest, locked bool) (io.ReadSeekCloser, err
 // blobMeta returns metadata on a blob.
 func (dr *dirRepo) blobMeta(d digest.Digest, locked bool) (blobMeta, error) {
 	m := blobMeta{}
-	if !dr.exists {
+	if !dr.repoExists(locked) {
 		return m, fmt.Errorf("repo does not exist %s: %w", dr.name, types.ErrNotFound)
 	}
 
@@ -361,7 +361,7 @@ func (dr *dirRepo) blobCreate(locked bool, opts ...BlobOpt) (BlobCreator, string
 			return nil, "", err
 		}
 	}
-	if !dr.exists {
+	if !dr.repoExists(locked) {
 		err := dr.repoInit(locked)
 		if err != nil {
 			return nil, "", err
@@ -433,7 +433,7 @@ func (dr *dirRepo) blobDelete(d digest.Digest, locked bool) error {
 	if *dr.conf.Storage.ReadOnly {
 		return types.ErrReadOnly
 	}
-	if !dr.exists {
+	if !dr.repoExists(locked) {
 		return fmt.Errorf("repo does not exist %s: %w", dr.name, types.ErrNotFound)
 	}
 	if err := d.Validate(); err != nil {
@@ -498,6 +498,16 @@ func (dr *dirRepo) BlobSession(sessionID string) (BlobCreator, error) {
 // This must be called exactly once for every instance of [Store.RepoGet].
 func (dr *dirRepo) Done() {
 	dr.wg.Done()
+}
+
+// repoExists returns true when the repo directory has been initialized.
+// The lock is acquired unless the caller indicates it is already held.
+func (dr *dirRepo) repoExists(locked bool) bool {
+	if !locked {
+		dr.mu.Lock()
+		defer dr.mu.Unlock()
+	}
+	return dr.exists
 }
 
 func (dr *dirRepo) repoInit(locked bool) error {
